@@ -424,8 +424,7 @@ theorem deleteBucket_view {s s' : St D} {b : String} (h : Inv s)
       apply List.filter_congr
       intro x _
       by_cases hx : x.bucket = r'.key
-      · have : x.bucket ≠ k := hx ▸ hne
-        simp [hx, this, hne]
+      · simp [hx, hne]
       · simp [hx]
 
 theorem deleteBucket_missing {s : St D} {b : String} (h : Inv s)
@@ -457,5 +456,167 @@ theorem bucketsOf_eq {s : St D} (h : Inv s) (b : String) (m : Meta) :
   · rintro ⟨es, hv⟩
     obtain ⟨r, _, hr, hb, _, hm, _⟩ := view_some h hv
     exact List.mem_map.mpr ⟨r, hr, by rw [hb, hm]⟩
+
+/-! ### event ids seen through the view -/
+
+theorem ids_eq {s : St D} (h : Inv s) {b : String} {k : Int} (hk : keyOf s b = some k) :
+    Spec.ids (view s) b = (rowsOf s k).map (·.id) := by
+  obtain ⟨r, _, _, _, _, hv⟩ := keyOf_some h hk
+  unfold Spec.ids
+  rw [hv]
+  show List.filterMap _ (List.map toEv _) = _
+  rw [List.filterMap_map]
+  exact congrFun List.filterMap_eq_map _
+
+/-- every id visible in some bucket is the id of a row of the event table -/
+theorem ids_sub (s : St D) (b : String) (i : Int) (hi : i ∈ Spec.ids (view s) b) :
+    ∃ x ∈ s.events, x.id = i := by
+  unfold Spec.ids at hi
+  rw [view_eq] at hi
+  cases hf : s.buckets.find? (fun r => decide (r.bid = b)) with
+  | none => rw [hf] at hi; cases hi
+  | some r =>
+    rw [hf] at hi
+    simp only [Option.map_some] at hi
+    obtain ⟨a, ha, hai⟩ := List.mem_filterMap.mp hi
+    obtain ⟨x, hx, rfl⟩ := List.mem_map.mp ha
+    exact ⟨x, (List.mem_filter.mp hx).1, by simpa [toEv] using hai⟩
+
+theorem ids_le_maxId (s : St D) (b : String) (i : Int) (hi : i ∈ Spec.ids (view s) b) :
+    i ≤ maxId s.events := by
+  obtain ⟨x, hx, rfl⟩ := ids_sub s b i hi
+  exact id_le_maxId hx
+
+theorem ids_nodup {s : St D} {b : String} {m : Meta} {es : List (Ev D)} (h : Inv s)
+    (hv : view s b = some (m, es)) : (es.filterMap (·.id)).Nodup ∧ ∀ x ∈ es, x.id.isSome := by
+  obtain ⟨r, _, _, _, hk, _, rfl⟩ := view_some h hv
+  constructor
+  · have := ids_eq h hk
+    unfold Spec.ids at this
+    rw [hv] at this
+    simp only at this
+    rw [this]
+    exact List.Nodup.sublist (List.Sublist.map _ List.filter_sublist) h.eids
+  · intro x hx
+    obtain ⟨y, _, rfl⟩ := List.mem_map.mp hx
+    rfl
+
+/-! ### insertOne -/
+
+/-- the row rewrite of an upsert / `replace` -/
+def setRow (e : Ev D) (row : ERow D) : ERow D := { row with ts := e.ts, dur := e.dur, data := e.data }
+
+theorem insertOne_new_ok {s s' : St D} {b : String} {e : Ev D} {oi : Option Int} (he : e.id = none)
+    (hc : insertOne s b e = .ok (s', oi)) :
+    ∃ k, keyOf s b = some k ∧ oi = some (maxId s.events + 1) ∧
+      s' = { s with events := s.events ++ [⟨maxId s.events + 1, k, e.ts, e.dur, e.data⟩] } := by
+  unfold insertOne at hc
+  split at hc
+  · cases hc
+  · rename_i k hk
+    rw [he] at hc
+    simp only [Except.ok.injEq, Prod.mk.injEq] at hc
+    exact ⟨k, hk, hc.2.symm, hc.1.symm⟩
+
+theorem insertOne_upsert_ok {s s' : St D} {b : String} {e : Ev D} {oi : Option Int} {i : Int}
+    (he : e.id = some i) (hc : insertOne s b e = .ok (s', oi)) :
+    ∃ k, keyOf s b = some k ∧ oi = some i ∧
+      s' = { s with events := s.events.map (fun row =>
+        if row.id = i ∧ row.bucket = k then setRow e row else row) } := by
+  unfold insertOne at hc
+  split at hc
+  · cases hc
+  · rename_i k hk
+    rw [he] at hc
+    simp only [Except.ok.injEq, Prod.mk.injEq] at hc
+    exact ⟨k, hk, hc.2.symm, hc.1.symm⟩
+
+theorem insertOne_inv {s s' : St D} {b : String} {e : Ev D} {oi : Option Int} (h : Inv s)
+    (hc : insertOne s b e = .ok (s', oi)) : Inv s' := by
+  cases he : e.id with
+  | none =>
+    obtain ⟨k, hk, _, rfl⟩ := insertOne_new_ok he hc
+    exact inv_appendEvent h hk _ _ _
+  | some i =>
+    obtain ⟨k, hk, _, rfl⟩ := insertOne_upsert_ok he hc
+    apply inv_mapEvents h
+    intro r
+    split <;> exact ⟨rfl, rfl⟩
+
+theorem insertOne_view {s s' : St D} {b : String} {e : Ev D} {oi : Option Int} (h : Inv s)
+    (he : e.id = none) (hc : insertOne s b e = .ok (s', oi)) :
+    ∃ i, oi = some i ∧ (view s b).isSome ∧ view s' = Spec.insert (view s) b i e ∧
+      ∀ b', i ∉ Spec.ids (view s) b' := by
+  obtain ⟨k, hk, hoi, rfl⟩ := insertOne_new_ok he hc
+  obtain ⟨r, _, _, _, _, hv⟩ := keyOf_some h hk
+  refine ⟨maxId s.events + 1, hoi, by rw [hv]; rfl, ?_, ?_⟩
+  · apply view_onEvents h hk
+    · rw [List.filter_append, List.map_append]
+      simp [toEv]
+    · intro k' hne _
+      rw [List.filter_append]
+      simp [Ne.symm hne]
+  · intro b' hi
+    have := ids_le_maxId s b' _ hi
+    omega
+
+theorem insertOne_missing {s : St D} {b : String} {e : Ev D} (h : Inv s)
+    (hv : view s b = none) : insertOne s b e = .error .keyError := by
+  unfold insertOne
+  rw [(keyOf_none_iff h b).mpr hv]
+
+/-- with an existing bucket `insertOne` always succeeds -/
+theorem insertOne_total {s : St D} {b : String} {e : Ev D} (h : Inv s)
+    (hv : (view s b).isSome) : ∃ s' i, insertOne s b e = .ok (s', some i) := by
+  obtain ⟨k, hk⟩ := view_isSome_keyOf h hv
+  unfold insertOne
+  rw [hk]
+  cases e.id with
+  | none => exact ⟨_, _, rfl⟩
+  | some i => exact ⟨_, _, rfl⟩
+
+theorem toEv_setRow (e : Ev D) (i : Int) (row : ERow D) :
+    toEv (if row.id = i then setRow e row else row) =
+      (if (toEv row).id = some i then { e with id := some i } else toEv row) := by
+  by_cases hi : row.id = i
+  · simp [hi, toEv, setRow]
+  · simp [hi, toEv]
+
+/-- the upsert path: an event carrying an id rewrites that event of this bucket, for ANY id -/
+theorem insertOne_upsert_view {s s' : St D} {b : String} {e : Ev D} {oi : Option Int} {i : Int}
+    (h : Inv s) (he : e.id = some i) (hc : insertOne s b e = .ok (s', oi)) :
+    oi = some i ∧ (view s b).isSome ∧ view s' = Spec.replaceId (view s) b i e := by
+  obtain ⟨k, hk, hoi, rfl⟩ := insertOne_upsert_ok he hc
+  obtain ⟨r, _, _, _, _, hv⟩ := keyOf_some h hk
+  refine ⟨hoi, by rw [hv]; rfl, ?_⟩
+  apply view_onEvents h hk
+  · rw [List.filter_map, List.map_map, List.map_map]
+    have : (fun e_1 : ERow D => decide (e_1.bucket = k)) ∘
+        (fun row => if row.id = i ∧ row.bucket = k then setRow e row else row) =
+        (fun e_1 : ERow D => decide (e_1.bucket = k)) := by
+      funext row; show decide ((if _ then _ else _ : ERow D).bucket = k) = _
+      split <;> rfl
+    rw [this]
+    apply List.map_congr_left
+    intro row hrow
+    have hb : row.bucket = k := by simpa using (List.mem_filter.mp hrow).2
+    show toEv (if row.id = i ∧ row.bucket = k then setRow e row else row) =
+      (if (toEv row).id = some i then { e with id := some i } else toEv row)
+    rw [← toEv_setRow]
+    simp [hb]
+  · intro k' hne _
+    rw [List.filter_map]
+    have : (fun e_1 : ERow D => decide (e_1.bucket = k')) ∘
+        (fun row => if row.id = i ∧ row.bucket = k then setRow e row else row) =
+        (fun e_1 : ERow D => decide (e_1.bucket = k')) := by
+      funext row; show decide ((if _ then _ else _ : ERow D).bucket = k') = _
+      split <;> rfl
+    rw [this]
+    conv => rhs; rw [← List.map_id (List.filter _ s.events)]
+    apply List.map_congr_left
+    intro row hrow
+    have hb : row.bucket = k' := by simpa using (List.mem_filter.mp hrow).2
+    have : ¬ (row.id = i ∧ row.bucket = k) := fun hh => hne (hb ▸ hh.2)
+    simp [this]
 
 end Aw.Store.Peewee
